@@ -10,6 +10,10 @@ prop("C06",
                 "holder_offered_only_routable, fresh_pod_offered_iff_free_ip (an IFF, in the property's wording 'a pool listing a "
                 "subnet that contains the node's address'), partial_holder_offered_iff (the same exactness for default-policy pods "
                 "holding some of their ranges), fact_* / model_* (regenerated source shapes = the model's leaf functions). "
+                "state_hypotheses_hold_after_history / *_after_history: Coherent and CacheOK hold in every state reached by histories "
+                "of API truth changes, lister syncs, Filter, Bind and configuration RELOADS (a reload that goes through empties the "
+                "node-subnet cache, fact reloadClearsNodeSubnetCache), so the theorems apply after reloads that change node subnets; "
+                "stale_cache_after_reload_counter = what fails if the cache survived a reload. "
                 "Counter theorems with concrete witnesses: bound_ip_routable_counter (hypothesis AtMostOneWithoutRanges is "
                 "necessary as the code stands; reproduces on the real code = fixed since: ByKeyAndIPRanges(key,nil) sorted), filter_then_bind_overlap_counter "
                 "(overlapping ranges = the documented TODO of ipam_crd.go, outside the property's quantifier), d7_reseed_counter "
@@ -31,7 +35,9 @@ prop("C06",
                "NodeSubnetsByIPRanges) + regenerated structural facts (factgen c06: seeding conditions, pick condition and walk "
                "continuation, allocate-only-unfound, ipinfo from fip.pool) with fact-parameterised leaf variants + differential "
                "correspondence of every history (results, observed choices, full digests) of the REAL FloatingIPPlugin with "
-               "gxdrv_plugin + monitor of the five statements on real outputs: real Filter, then real Bind on EVERY approved node "
+               "gxdrv_plugin + 30% of the cases insert warm-up Filter -> reload through the real updateConfigMap path (node subnet "
+               "widened / narrowed / moved to another pool / removed) before the target, judged against the NEW configuration "
+               "(signatures get the suffix :after-reload) + monitor of the five statements on real outputs: real Filter, then real Bind on EVERY approved node "
                "(fresh world per node, same deterministic prefix) and on a rejected candidate; thorough: all allocation states of "
                "a 2-pool x 3-address topology x all requests of <= 3 disjoint range lists out of a menu of 6 x 3 nodes",
      factgen=["plugin", "c06"],
